@@ -4,7 +4,7 @@ from .. import rotcheck
 LEVEL = "exploration"
 PROFILE = {"L_choices": [1, 7, 64, 1000], "N_choices": [-1, 0, 1, 2, 2, 3, 3, 5, 12], "p_day": 0.04, "p_restart": 0.05, "p_foreign": 0.06,
            "burst": 0.12, "p_reconf": 0.35, "gran_choices": [1, 1000000, 1000000000, 2000000000], "real_p": 0.15, "n_ops": (10, 60),
-           "option_choices": [0, 1, 2, 3, 4, 5, 6, 7]}
+           "option_choices": [0, 1, 2, 3, 4, 5, 6, 7], "marathon_p": 0.02}
 
 
 def extra(totals):
